@@ -26,7 +26,7 @@ LEVEL = {
  "C15": ("proof", "Second sentence of the property (workers never panic) and the executor's half of the first: Verus's implicit safety obligations (overflow, bounds, unwrap, division by zero, shift, reachable panic!/unreachable!/debug_assert!) are discharged for every function under contract - all builtins, the rope, the heap choke points, 18 of 19 hot instruction handlers, the cold-path handlers, the select machinery, Executor::step's own glue, cross-heap transfer - for all arguments and all states satisfying the stated well-formedness; for the VM units every accounting obligation counts too, because a count that drifts is a debug-build worker panic. Of the first sentence the executor's half is decided at function level (Executor::step: an instruction's error becomes the process's result and clears its frames, every process of that executor's table awaiting it gets the same error and no frames, a failed process executes nothing any more); that the other processes run to their normal results, awaiters on other workers and late awaiters are schedule-level and not decided. handle_call (assumed for the one branch a select filter takes) and the two instruction dispatchers (assumed with what the handlers ensure) are outside the dialect.", "DESIGN.md §4 C15"),
  "C06": ("proof", "Function-level heap accounting: allocator representation invariant, retain/release exact against a ghost occurrence count, choke points, 18 hot handlers, the cold-path functions (incl. the REPL's replace_locals / release_orphan_locals) and the 7 functions of the select machinery balance counts against what they store (stack, locals, select state, mailbox); no premature free, no live slot handed out, content preserved by materialize; cross-heap transfer proved end to end (extract_heap_data, inject_heap_data, spawn_process and the transfer theorem: what is sent reads back the same bytes, in slots not live before, counted exactly as rooted, one allocation per incoming binary). Executor::step reclaims only at the start of a step (whatever slot is free afterwards and was not before had been queued, uncounted, before the step began) and keeps the running process's roots live and counted across frame teardown. The global equation over all roots of all processes and all schedules, handle_call, the two instruction dispatchers (assumed) and the worker-side glue are not decided.", "DESIGN.md §4 C06"),
  "C13": ("proof", "The VM's comparator only: Executor::values_equal (what pinned matches, literal matches and repeated binders execute through the Equal instruction) returns exactly the property's structural equality - equal integers, byte-equal binaries whatever their storage (constant table, heap rope of any shape), same canonical tuple shape and pairwise-equal fields, same definition and pairwise-equal captures, same process, same ref, different kinds differ - for all values of any depth, and that relation is proved reflexive (on valid values), symmetric and transitive; handle_equal pushes the first value exactly when all compared values are structurally equal to it, nil otherwise, and keeps the heap accounting balanced. Not decided: that the compiler / program updates give equal shapes equal canonical ids on every path (assumption A-canon; seeded change R4b lives there), uniqueness of minted refs across workers, and resource handles (the property is silent about them).", "DESIGN.md §4 C13"),
- "C16": ("proof", "VM mechanism of tail calls: executing TailCall never adds a frame, resets the frame's locals to base (+captures), changes the operand stack by exactly 0/-1 and releases what it drops; release queues what reaches count 0 and process_pending_free empties the queue and frees every queued slot still at count 0 at the next step; for all states. Compiler-side residue (what is emitted around ^) and frame teardown in step are not decided.", "DESIGN.md §4 C16"),
+ "C16": ("proof", "VM mechanism of tail calls: executing TailCall never adds a frame, resets the frame's locals to base (+captures), changes the operand stack by exactly 0/-1 and releases what it drops; release queues what reaches count 0 and process_pending_free empties the queue and frees every queued slot still at count 0, and Executor::step begins every time slice with it; for all states. Compiler-side residue (what is emitted around ^) is not decided; step's own postconditions (frame teardown, where else reclamation may not happen) are decided under C06 / C15.", "DESIGN.md §4 C16"),
 }
 NOTE = "Trusted: Verus 0.2026.09.13 + bundled Z3 4.16.0; vstd's specs of std; the assumed contracts listed by the mechanical scan in evidence.coverage.trusted_base (BigInt arithmetic = mathematical integers, derived Clone returns an equal value, Display/format is total, usize is 64 bit, dropping has no observable effect, a handful of std functions and iterator pieces vstd does not specify, the process table as an abstract map, handle_call's Function branch, the two instruction dispatchers, the runtime's own refcount oracle not firing, the receive-type test as an uninterpreted predicate); the extractor's closed list of syntactic normalisations N1-N17 and ghost-only splice anchors S1-S11 (DESIGN.md §2.1), each logged and undone by the erasure self-check on every run. Bounded stand-ins on the real code (boundary differential, transfer differential, program corpus) run only when the deductive check is undecided or in the thorough tier, are labelled bounded and never counted as proved."
 TECH = "contract-based deductive verification (Verus/Z3) of functions re-extracted mechanically from /repo on every run"
